@@ -1671,6 +1671,7 @@ def _compute_ports(netlist: _nir.Netlist):
             value = netlist.signals[signal]
             if value not in name_table and not name.startswith('$'):
                 name_table[value] = name
+        taken_names = set(module.signal_names.values())
 
         # Gather together "adjacent" nets with the same flow into ports.
         visited = set()
@@ -1699,6 +1700,8 @@ def _compute_ports(netlist: _nir.Netlist):
                 name = name_table[value]
             else:
                 name = f"port${value[0].cell}${value[0].bit}"
+                while name in taken_names:
+                    name += "$"
             module.ports[name] = (value, flow)
             visited.update(value)
 
